@@ -305,6 +305,12 @@ func (so *stateObject) SetBalance(amount *big.Int) {
 		account: &so.address,
 		prev:    new(big.Int).Set(so.account.Balance()),
 	})
+	so.setBalance(amount)
+}
+
+// setBalance sets the balance without a journal entry, it is used when the journal
+// itself restores a balance and when an account is created over an existing one
+func (so *stateObject) setBalance(amount *big.Int) {
 	so.account.SetBalance(amount)
 }
 
